@@ -2,8 +2,10 @@
 (* stand-alone exhaustive configuration of HttpPipeline.tla (quick-tier request variants); checks/C16.py generates *)
 (* the same module with the variant set of the tier and adds the CaseOut "invariant" that exports the cases        *)
 EXTENDS HttpPipeline
-V(k, n, c) == [k |-> k, n |-> n, close |-> c]
+V(k, n, c) == [k |-> k, n |-> n, close |-> c, sp |-> IF c THEN 1 ELSE 0]
+W(k, n, sp) == [k |-> k, n |-> n, close |-> (sp \in 1..6), sp |-> sp]
 MCVariants == { V("G", 5, FALSE), V("G", 0, FALSE), V("G", 5, TRUE), V("H", 5, FALSE), V("P", 3, FALSE), V("C", 3, FALSE),
                 V("T", 0, FALSE), V("R", 3, FALSE), V("N", 0, FALSE), V("M", 0, FALSE), V("O", 0, FALSE), V("B", 1, FALSE),
-                V("B", 3, FALSE), V("U", 1, FALSE), V("U", 2, FALSE), V("U", 4, FALSE), V("L", 64, FALSE), V("L", 4096, FALSE), V("L", 4096, TRUE) }
+                V("B", 3, FALSE), V("U", 1, FALSE), V("U", 2, FALSE), V("U", 4, FALSE), V("L", 64, FALSE), V("L", 4096, FALSE), V("L", 4096, TRUE),
+                W("G", 5, 2), W("G", 5, 5), W("G", 5, 7), V("S204", 5, FALSE), V("S304", 5, FALSE), V("HS304", 5, FALSE) }
 ====
